@@ -81,6 +81,14 @@ def exhaustive_cases(ck, n, two_projects, sample=None):
         k += 1
 
 
+def all_digraph_cases(ck, n):
+    """ALL 2^(n*n) digraphs on n nodes (self loops included), every node a build, every edge a declared dependency"""
+    pairs = [(i, j) for i in range(n) for j in range(n)]
+    for mask in range(1 << len(pairs)):
+        edges = [(i, j, 1) for k, (i, j) in enumerate(pairs) if mask >> k & 1]
+        yield ('g%d_%d' % (n, mask), R.graph_config(('B',) * n, edges, False), 'REQ', ['t0'], 'all-digraphs-%d' % n, 'json')
+
+
 def sampled_graph_cases(ck, n, count, two_projects):
     for k in range(count):
         kinds, edges = R.random_small_graph(ck.rng, n)
@@ -211,6 +219,7 @@ def run(ck):
             yield from sampled_graph_cases(ck, 4, 500, True)
         else:
             yield from exhaustive_cases(ck, 3, False)
+            yield from all_digraph_cases(ck, 4)
             yield from sampled_graph_cases(ck, 3, 20000, True)
             yield from sampled_graph_cases(ck, 4, 30000, False)
             yield from sampled_graph_cases(ck, 4, 10000, True)
@@ -221,7 +230,8 @@ def run(ck):
     ck.extra['exhaustive'] = ('EXHAUSTIVE: all digraphs (self loops included) x kind assignments x edge kinds (declared / `.output`), '
                               'node 0 requested, on <=2 nodes in one and in two mutually importing projects' +
                               ('; 3 and 4 nodes sampled' if quick else
-                               ' and on 3 nodes in one project (238 328 shapes); 3 nodes in two projects and 4 nodes sampled'))
+                               ' and on 3 nodes in one project (238 328 shapes); ALL 65 536 digraphs on 4 nodes with build '
+                               'targets and declared edges; 3 nodes in two projects and 4 nodes with mixed kinds sampled'))
     ck.extra['cases'] = ncases
     # the extracted runner against Coq's own evaluation (vm_compute) on sampled cases
     xs = []
